@@ -18,7 +18,7 @@ CLAIMED = {
                 text='Theorems (unbounded over line lists, states, flags): every conditional branch left by check_branches is within -128..127 when its label is unique; the repair skeleton exits exactly where the original branch (pair) did for every flag state; no panic when targets are defined; labels stay unique and defined; the iteration terminates. Tied to src/assemble.rs by running the Rust and the extracted model on the same thousands of boundary-sweeping inputs each run, and by recomputing displacements / co-executing original vs repaired on the implementation\'s own output.',
                 ref='DESIGN.md section 6 C03'),
     'C02': dict(cat='proof', technique='Coq proofs on a Gallina model of the peephole optimiser (structure for all line lists; per-instruction knowledge soundness and per-rule soundness on the 6502 semantics) + exact per-run correspondence with the Rust + -O0 vs -O1..3 co-execution',
-                text='Proved for all line lists: the optimiser terminates, only turns unprotected instructions (or immediate compares) into Dummy or swaps LDA with SEC/CLC, never touches labels/inline/comments, invents nothing. Proved on the 6502 semantics (when Props/C02sem.v is present): the register-knowledge transfer function (register contents and which register N/Z describe) is sound for every instruction, each rewrite rule preserves the state up to N/Z, and a removed load either changes nothing or only N/Z while the next instruction(s) the look-ahead inspected redefine them whatever they were (removal_dead). The global simulation over whole functions is NOT proved; it is explored by co-executing -O0 against every other level on seeded programs with optimiser baits. Partial.',
+                text='Proved for all line lists: the optimiser terminates, only turns unprotected instructions (or immediate compares) into Dummy or swaps LDA with SEC/CLC, never touches labels/inline/comments, invents nothing. Proved on the 6502 semantics (when Props/C02sem.v is present): the register-knowledge transfer function (register contents and which register N/Z describe) is sound for every instruction, each rewrite rule preserves the state up to N/Z, and a removed load either changes nothing or only N/Z while the next instruction(s) the look-ahead inspected redefine them whatever they were (removal_dead). The global simulation IS proved for straight-line code (optimize_straight_sound: for every line list without labels, branches, calls and stack operations whose operands pass a syntactic scan, executing the optimised list ends in a state equal to the state the original reaches, flags included, both on a straight-line executor and on Sem.run); across labels, branches and calls it is NOT proved; it is explored by co-executing -O0 against every other level on seeded programs with optimiser baits. Partial.',
                 ref='DESIGN.md section 6 C02'),
     'C18': dict(cat='proof', technique='Coq proofs (csleep cycle/frame theorem on the 6502 cycle model; optimiser keeps protected instructions and inline assembly) + exhaustive csleep-table correspondence + trace co-execution against the extracted C semantics',
                 text='csleep(n) is proved to take exactly n cycles and to change nothing but DUMMY and the free stack byte for every state, on a table compared exhaustively with the generator each run; the optimiser is proved never to remove, duplicate or reorder protected instructions and inline lines; executed event traces at every level are compared with the trace the C semantics prescribes, and deleting csleep statements must not change final states.',
@@ -57,7 +57,7 @@ CLAIMED = {
                 text='Comment lines are proved untouched by the optimiser; scanner theorems in Proofs/ScanFacts.v when present; every generated program is re-written with comments of many shapes, blank lines, tabs, CR-LF and splices between tokens and must yield identical declarations and instructions; --insert-code / -W must leave -O0 instructions identical and optimised behaviour identical (co-execution).',
                 ref='DESIGN.md section 6 C11'),
     'C10': dict(cat='proof', technique='Coq theorems on a Gallina model of the calculator (pest Pratt algorithm + operator table + ?: encoding): all 289 operator pairs grouped as in C for all operand values, unary binds tightest, truth values, division + exact correspondence with parse_calc + reference C evaluator on random expressions',
-                text='Precedence/associativity of the calculator is proved equal to C for every pair of binary operators and all operand values (no exception since the precedence fix 8795ccc), with the model compared to the real calculator on thousands of random token sequences and all pairs each run; a reference C evaluator checks random expressions printed with minimal parentheses, literals in every form, and constants folded inside statements.',
+                text='The general statement is proved: every expression tree built from numbers, the 3 prefix and the 17 non-ternary binary operators, printed with the parentheses C\'s grammar requires (or any redundant ones), is evaluated by the modelled Pratt calculator exactly as C groups it, errors included, with the very fuel calc uses (C10_calc_groups_as_C, by the Pratt-parser invariant); plus every operator pair, truth values, division, ?: and the refutation of nested ?:; with the model compared to the real calculator on thousands of random token sequences and all pairs each run; a reference C evaluator checks random expressions printed with minimal parentheses, literals in every form, and constants folded inside statements.',
                 ref='DESIGN.md section 6 C10'),
     'C17': dict(cat='proof', technique='Coq theorems on the asm() model (per-mnemonic port offsets) and on the split-port memory of the 6502 semantics + exhaustive asm() correspondence + co-execution with the split-port memory model switched on against the ordinary-variable twin',
                 text='Stores get the write port and every other mnemonic the read port for superchip / 3E / 3E+ variables, ordinary variables none: proved on the model compared exhaustively with asm(); a value written through the write port is read back through the read port and wrong-port accesses fault (memory model theorems); the 25 instruction sequences the generator emits for statements on split-port variables (copies, ++/--, +=, shifts, 16-bit and pointer-variable ++/-- with the carry, X/Y-indexed elements) are proved on the 6502 semantics, for all states, to run without fault and to compute the C result with every other cell unchanged, and are compared with the real -O0 output every run; generated programs with random superchip variables are co-executed with faults enabled and must end like their ordinary twin.',
